@@ -175,7 +175,7 @@ func c01Variants(r *rand.Rand, n int) []voteVariant {
 		add(voteVariant{Class: "ragged-bitmap-length", Marks: m, NBytes: nb, Signers: sg, Expect: exp})
 	}
 	// wrong sign-doc with an otherwise complete quorum
-	for _, d := range []string{"chain-id", "seq+1", "seq+1-field-too", "seq-1-field-too", "epoch+1", "epoch+1-field-too", "method", "proposer", "payload"} {
+	for _, d := range []string{"chain-id", "chain-id-empty", "chain-id-truncated", "seq+1", "seq+1-field-too", "seq-1-field-too", "epoch+1", "epoch+1-field-too", "method", "proposer", "payload"} {
 		add(voteVariant{Class: "wrong-signdoc-" + d, Marks: q, NBytes: -1, Signers: withP(q), Doc: d, Expect: mustFail})
 	}
 	// malformed signatures
@@ -207,6 +207,10 @@ func c01Build(env *c01Env, g *world.Group, kind string, v voteVariant, salt int)
 	switch v.Doc {
 	case "chain-id":
 		vc_.ChainID = "goat-other-9"
+	case "chain-id-empty":
+		vc_.ChainID = ""
+	case "chain-id-truncated":
+		vc_.ChainID = vc_.ChainID[:len(vc_.ChainID)-1]
 	case "seq+1":
 		vc_.Seq++
 	case "seq+1-field-too":
